@@ -149,7 +149,11 @@ def r1(case, rec):
                 require(f is None or v == f, '%s evaluated the model with a fixed parameter changed: %r (fixed %r)' % (which, p.tolist(), case['fixed']), **sig)
     require(xopt.shape == (case['k'],), '%s returned %d parameters for a %d-parameter model' % (which, xopt.size, case['k']), **sig)
     if np.isnan(xopt).any():
-        raise Reject()     # documented NLopt round-off failure path
+        # documented NLopt round-off failure path (-inf likelihood, NaN for the free parameters): fixed parameters still come back
+        if case['fixed']:
+            for i, fv in enumerate(case['fixed']):
+                require(fv is None or xopt[i] == fv, '%s gave up (round-off) and returned fixed parameter %d as %r, not %r' % (which, i, xopt[i], fv), **sig)
+        raise Reject()
     for i, (v, l, h) in enumerate(zip(xopt, lo, hi)):
         if case['fixed'] and case['fixed'][i] is not None:
             require(v == case['fixed'][i], '%s returned fixed parameter %d as %r, not %r' % (which, i, v, case['fixed'][i]), **sig)
